@@ -1,6 +1,509 @@
-//! C07 — not built yet.
-use vcommon::Args;
+//! C07 — container nesting limits are enforced exactly.
+//!
+//! Space: every triple (arrays, structures, variants) ∈ 0‥B³ (B = 36 quick, 40 thorough) × nesting
+//! orders (quick: the three block orders ASV, VSA, SVA and round-robin ASV; thorough: all six block
+//! permutations and both round-robins) × {D-Bus, GVariant} × {encode the `Value`, decode a
+//! reference-built encoding}; the value is the chain of one-element containers in that order
+//! around a `y`. A second pass uses one-entry dicts (`a{y…}`) as the array kind.
+//!
+//! Oracle (the statement, literally): success ⇔ arrays ≤ 32 ∧ structures ≤ 32 ∧
+//! arrays + structures + variants ≤ 64, and every failure is `Error::MaxDepthExceeded`.
+//! For the dict pass the statement does not say whether a dict entry is a "structure"; a case is
+//! judged only when both readings agree (dict = array only / dict = array + structure).
 
-pub fn main(_args: &Args) -> i32 {
-    vcommon::machinery_failure("C07: check not built yet")
+use serde_json::json;
+use std::collections::BTreeSet;
+use vcommon::{hash64, Args, Report, Violation};
+
+use crate::c05::{ctx, err_class, real_encode, Fmt};
+use crate::refdbus;
+use crate::rv::{self, FdTable, Ty, RV};
+
+#[derive(Clone, Copy, PartialEq, Eq, Hash, Debug, PartialOrd, Ord)]
+enum K {
+    A,
+    S,
+    V,
+}
+
+fn seq_string(seq: &[K]) -> String {
+    seq.iter()
+        .map(|k| match k {
+            K::A => 'A',
+            K::S => 'S',
+            K::V => 'V',
+        })
+        .collect()
+}
+
+fn seq_parse(s: &str) -> Option<Vec<K>> {
+    s.chars()
+        .map(|c| match c {
+            'A' => Some(K::A),
+            'S' => Some(K::S),
+            'V' => Some(K::V),
+            _ => None,
+        })
+        .collect()
+}
+
+/// Run-length form for messages: A32 S32 V1.
+fn seq_rle(seq: &[K]) -> String {
+    let mut out = String::new();
+    let mut i = 0;
+    while i < seq.len() {
+        let mut j = i;
+        while j < seq.len() && seq[j] == seq[i] {
+            j += 1;
+        }
+        if !out.is_empty() {
+            out.push(' ');
+        }
+        out.push_str(&format!("{}{}", seq_string(&seq[i..i + 1]), j - i));
+        i = j;
+    }
+    if out.is_empty() {
+        out.push_str("(bare y)");
+    }
+    out
+}
+
+fn block(order: [K; 3], a: usize, s: usize, v: usize) -> Vec<K> {
+    let n = |k: K| match k {
+        K::A => a,
+        K::S => s,
+        K::V => v,
+    };
+    let mut out = vec![];
+    for k in order {
+        out.extend(std::iter::repeat(k).take(n(k)));
+    }
+    out
+}
+
+fn round_robin(order: [K; 3], a: usize, s: usize, v: usize) -> Vec<K> {
+    let mut left = [a, s, v];
+    let idx = |k: K| match k {
+        K::A => 0,
+        K::S => 1,
+        K::V => 2,
+    };
+    let mut out = vec![];
+    while left.iter().any(|n| *n > 0) {
+        for k in order {
+            if left[idx(k)] > 0 {
+                left[idx(k)] -= 1;
+                out.push(k);
+            }
+        }
+    }
+    out
+}
+
+/// (name, sequence outermost → innermost)
+fn orders(thorough: bool, a: usize, s: usize, v: usize) -> Vec<(&'static str, Vec<K>)> {
+    use K::*;
+    let mut out = vec![
+        ("block-ASV", block([A, S, V], a, s, v)),
+        ("block-VSA", block([V, S, A], a, s, v)),
+        ("block-SVA", block([S, V, A], a, s, v)),
+        ("rr-ASV", round_robin([A, S, V], a, s, v)),
+    ];
+    if thorough {
+        out.push(("block-AVS", block([A, V, S], a, s, v)));
+        out.push(("block-SAV", block([S, A, V], a, s, v)));
+        out.push(("block-VAS", block([V, A, S], a, s, v)));
+        out.push(("rr-VSA", round_robin([V, S, A], a, s, v)));
+    }
+    out
+}
+
+/// The chain of one-element containers `seq` (outermost first) around the byte 7.
+fn build(seq: &[K], dict: bool) -> RV {
+    let mut v = RV::Y(7);
+    let mut t = Ty::Y;
+    for k in seq.iter().rev() {
+        match k {
+            K::A => {
+                if dict {
+                    v = RV::Dict(Ty::Y, t.clone(), vec![(RV::Y(1), v)]);
+                    t = Ty::Dict(Box::new(Ty::Y), Box::new(t));
+                } else {
+                    v = RV::Array(t.clone(), vec![v]);
+                    t = Ty::Array(Box::new(t));
+                }
+            }
+            K::S => {
+                v = RV::Struct(vec![v]);
+                t = Ty::Struct(vec![t]);
+            }
+            K::V => {
+                v = RV::V(Box::new((t.clone(), v)));
+                t = Ty::V;
+            }
+        }
+    }
+    v
+}
+
+#[derive(Clone, Copy, PartialEq, Eq, Debug)]
+enum Expect {
+    Ok,
+    DepthError,
+    /// the statement does not decide (dict entries)
+    Unjudged,
+}
+
+fn expect(seq: &[K], dict: bool) -> Expect {
+    let a = seq.iter().filter(|k| **k == K::A).count();
+    let s = seq.iter().filter(|k| **k == K::S).count();
+    let v = seq.iter().filter(|k| **k == K::V).count();
+    let ok = |a: usize, s: usize, total: usize| a <= 32 && s <= 32 && total <= 64;
+    if !dict {
+        return if ok(a, s, a + s + v) {
+            Expect::Ok
+        } else {
+            Expect::DepthError
+        };
+    }
+    let plain = ok(a, s, a + s + v); // a dict is one array
+    let strict = ok(a, s + a, a + s + v + a); // a dict is an array of structures
+    match (plain, strict) {
+        (true, true) => Expect::Ok,
+        (false, false) => Expect::DepthError,
+        _ => Expect::Unjudged,
+    }
+}
+
+#[derive(Debug, Clone, PartialEq)]
+enum Obs {
+    Ok,
+    Depth(String),
+    OtherError(String),
+    Panic(String),
+    /// decode succeeded but the value is not the one that was encoded
+    WrongValue(String),
+    /// this build cannot run the case
+    Skipped,
+}
+
+impl Obs {
+    fn class(&self) -> String {
+        match self {
+            Obs::Ok => "ok".into(),
+            Obs::Depth(w) => format!("depth-error:{w}"),
+            Obs::OtherError(e) => format!("other-error:{}", e.split(':').next().unwrap_or("")),
+            Obs::Panic(_) => "panic".into(),
+            Obs::WrongValue(_) => "wrong-value".into(),
+            Obs::Skipped => "skipped".into(),
+        }
+    }
+}
+
+fn classify<T>(r: Result<zvariant::Result<T>, String>) -> (Obs, Option<T>) {
+    match r {
+        Err(p) => (Obs::Panic(format!("{p} at {}", vcommon::last_panic_location())), None),
+        Ok(Err(zvariant::Error::MaxDepthExceeded(w))) => (Obs::Depth(format!("{w:?}")), None),
+        Ok(Err(e)) => (Obs::OtherError(format!("{}: {e}", err_class(&e))), None),
+        Ok(Ok(t)) => (Obs::Ok, Some(t)),
+    }
+}
+
+fn do_encode(v: &RV, fmt: Fmt, fds: &FdTable) -> Obs {
+    let Some(c) = ctx(fmt, false, 0) else { return Obs::Skipped };
+    let zv = match rv::to_value(v, fds) {
+        Ok(z) => z,
+        Err(e) => vcommon::machinery_failure(&format!("C07: cannot build the value: {e}")),
+    };
+    classify(vcommon::catch(|| real_encode(&zv, c))).0
+}
+
+fn reference_bytes(v: &RV, fmt: Fmt) -> Vec<u8> {
+    match fmt {
+        Fmt::DBus => refdbus::encode(v, false, 0).buf,
+        Fmt::GV => crate::refgv::normal_form(v, false),
+    }
+}
+
+/// Decode reference bytes of `v` with the real decoder, dynamically typed. Values whose
+/// outermost container is a dict have no dynamic top-level decoder; the caller wraps them.
+fn do_decode(v: &RV, fmt: Fmt) -> Obs {
+    let Some(c) = ctx(fmt, false, 0) else { return Obs::Skipped };
+    let bytes = reference_bytes(v, fmt);
+    let data = zvariant::serialized::Data::new(bytes, c);
+    let sig = rv::zsig(&v.ty());
+    let no_fd = |_: i32| 0u32;
+    let (obs, back) = match v {
+        RV::Array(..) => {
+            let (o, x) = classify(vcommon::catch(|| {
+                data.deserialize_for_dynamic_signature::<_, zvariant::Array<'_>>(&sig)
+            }));
+            (o, x.map(|(a, n)| (rv::from_value(&zvariant::Value::Array(a), &no_fd), n)))
+        }
+        RV::Struct(..) => {
+            let (o, x) = classify(vcommon::catch(|| {
+                data.deserialize_for_dynamic_signature::<_, zvariant::Structure<'_>>(&sig)
+            }));
+            (o, x.map(|(a, n)| (rv::from_value(&zvariant::Value::Structure(a), &no_fd), n)))
+        }
+        RV::V(..) => {
+            let (o, x) = classify(vcommon::catch(|| data.deserialize::<zvariant::Value<'_>>()));
+            (
+                o,
+                x.map(|(a, n)| (rv::from_value(&zvariant::Value::Value(Box::new(a)), &no_fd), n)),
+            )
+        }
+        RV::Y(_) => {
+            let (o, x) = classify(vcommon::catch(|| data.deserialize::<u8>()));
+            (o, x.map(|(a, n)| (Ok(RV::Y(a)), n)))
+        }
+        _ => vcommon::machinery_failure("C07: unexpected outermost kind"),
+    };
+    if let (Obs::Ok, Some((back, _n))) = (&obs, back) {
+        match back {
+            Ok(b) if rv::rv_eq(&b, v) => {}
+            Ok(b) => return Obs::WrongValue(format!("decoded a different value of type {}", b.ty().sig())),
+            Err(e) => return Obs::WrongValue(format!("cannot read the decoded value back: {e}")),
+        }
+    }
+    obs
+}
+
+#[derive(Clone, Copy, PartialEq, Eq, Debug)]
+enum Op {
+    Encode,
+    Decode,
+}
+
+fn run(seq: &[K], dict: bool, fmt: Fmt, op: Op, fds: &FdTable) -> (Vec<K>, Obs) {
+    // a dict cannot be the outermost container of a dynamic decode: wrap it in one variant and
+    // judge the wrapped value
+    let mut seq = seq.to_vec();
+    if op == Op::Decode && dict && seq.first() == Some(&K::A) {
+        seq.insert(0, K::V);
+    }
+    let v = build(&seq, dict);
+    let obs = match op {
+        Op::Encode => do_encode(&v, fmt, fds),
+        Op::Decode => do_decode(&v, fmt),
+    };
+    (seq, obs)
+}
+
+fn limit_feature(seq: &[K]) -> &'static str {
+    let a = seq.iter().filter(|k| **k == K::A).count();
+    let s = seq.iter().filter(|k| **k == K::S).count();
+    if a > 32 {
+        "arrays>32"
+    } else if s > 32 {
+        "structures>32"
+    } else if seq.len() > 64 {
+        "total>64"
+    } else {
+        "within-limits"
+    }
+}
+
+/// Judge one observation; returns the outcome class.
+fn judge(report: &Report, order: &str, seq: &[K], dict: bool, fmt: Fmt, op: Op, obs: &Obs) -> String {
+    let exp = expect(seq, dict);
+    let opn = if op == Op::Encode { "encode" } else { "decode" };
+    let payload = || json!({"seq": seq_string(seq), "dict": dict, "format": fmt.name(), "op": opn, "order": order});
+    let descr = || {
+        format!(
+            "{} {} of the chain [{}]{} ({} containers)",
+            fmt.name(),
+            opn,
+            seq_rle(seq),
+            if dict { " with dicts as the array kind" } else { "" },
+            seq.len()
+        )
+    };
+    let common = |v: Violation| {
+        v.feat("format", fmt.name())
+            .feat("op", opn)
+            .feat("limit", limit_feature(seq))
+            .feat("array_kind", if dict { "dict" } else { "array" })
+    };
+    let cls = obs.class();
+    match (exp, obs) {
+        (_, Obs::Skipped) => return "skipped".into(),
+        (_, Obs::Panic(p)) => report.violation(common(Violation::new(
+            "no-panic",
+            format!("{}: panicked: {p}", descr()),
+            payload(),
+        ))),
+        (Expect::Unjudged, _) => return format!("unjudged(dict-entry-reading)/{cls}"),
+        (Expect::Ok, Obs::Ok) | (Expect::DepthError, Obs::Depth(_)) => {}
+        (Expect::Ok, Obs::Depth(w)) => report.violation(common(
+            Violation::new(
+                "within-limits-succeeds",
+                format!("{}: within all three limits but rejected with MaxDepthExceeded({w})", descr()),
+                payload(),
+            )
+            .feat("observed", format!("depth-error:{w}")),
+        )),
+        (Expect::Ok, Obs::OtherError(e)) => report.violation(common(
+            Violation::new(
+                "within-limits-succeeds",
+                format!("{}: within all three limits but failed with {e}", descr()),
+                payload(),
+            )
+            .feat("observed", cls.clone()),
+        )),
+        (Expect::Ok, Obs::WrongValue(e)) => report.violation(common(
+            Violation::new("within-limits-succeeds", format!("{}: {e}", descr()), payload())
+                .feat("observed", "wrong-value"),
+        )),
+        (Expect::DepthError, Obs::Ok) | (Expect::DepthError, Obs::WrongValue(_)) => report.violation(common(
+            Violation::new(
+                "beyond-limits-fails",
+                format!("{}: exceeds a limit ({}) but succeeded", descr(), limit_feature(seq)),
+                payload(),
+            )
+            .feat("observed", "ok"),
+        )),
+        (Expect::DepthError, Obs::OtherError(e)) => report.violation(common(
+            Violation::new(
+                "failure-is-depth-error",
+                format!("{}: exceeds a limit ({}) and failed, but not with a depth error: {e}", descr(), limit_feature(seq)),
+                payload(),
+            )
+            .feat("observed", cls.clone()),
+        )),
+    }
+    format!(
+        "{}/{}",
+        match exp {
+            Expect::Ok => "within",
+            Expect::DepthError => "beyond",
+            Expect::Unjudged => "unjudged",
+        },
+        cls
+    )
+}
+
+fn near_limit(seq: &[K]) -> bool {
+    let a = seq.iter().filter(|k| **k == K::A).count();
+    let s = seq.iter().filter(|k| **k == K::S).count();
+    (30..=34).contains(&a) || (30..=34).contains(&s) || (62..=66).contains(&seq.len())
+}
+
+fn replay(path: &str) -> i32 {
+    let art = vcommon::load_replay(path);
+    let r = &art["replay"];
+    let (Some(seq), Some(fmt)) = (
+        r["seq"].as_str().and_then(seq_parse),
+        r["format"].as_str().and_then(Fmt::parse),
+    ) else {
+        vcommon::machinery_failure("C07 replay: bad payload")
+    };
+    let dict = r["dict"].as_bool().unwrap_or(false);
+    let op = if r["op"].as_str() == Some("decode") { Op::Decode } else { Op::Encode };
+    let fds = FdTable::new(0);
+    let v = build(&seq, dict);
+    let obs = match op {
+        Op::Encode => do_encode(&v, fmt, &fds),
+        Op::Decode => do_decode(&v, fmt),
+    };
+    let exp = expect(&seq, dict);
+    println!(
+        "replay C07: {} {:?} of [{}] dict={dict} type {}",
+        fmt.name(),
+        op,
+        seq_rle(&seq),
+        v.ty().sig()
+    );
+    println!("expected by the statement: {exp:?}; observed: {obs:?}");
+    let held = matches!(
+        (exp, &obs),
+        (Expect::Ok, Obs::Ok) | (Expect::DepthError, Obs::Depth(_)) | (Expect::Unjudged, _)
+    );
+    if held {
+        0
+    } else {
+        1
+    }
+}
+
+pub fn main(args: &Args) -> i32 {
+    if let Some(p) = &args.replay {
+        return replay(p);
+    }
+    let report = Report::new("C07", args.tier, args.seed, "exploration");
+    crate::c05::keep_freed_memory();
+    let thorough = args.tier == vcommon::Tier::Thorough;
+    let b = args.tier.pick(36usize, 40usize);
+    let side = b + 1;
+    let fmts: Vec<Fmt> = if crate::c05::gv_enabled() {
+        vec![Fmt::DBus, Fmt::GV]
+    } else {
+        report.cap("this build has no gvariant feature: GVariant half not run");
+        vec![Fmt::DBus]
+    };
+    let fds = FdTable::new(0);
+    let n_seq = std::sync::atomic::AtomicU64::new(0);
+    vcommon::par_for(side * side * side, 16, |i| {
+        let (a, s, v) = (i / (side * side), (i / side) % side, i % side);
+        let mut seen: BTreeSet<Vec<K>> = BTreeSet::new();
+        let mut classes: std::collections::BTreeMap<String, u64> = Default::default();
+        let mut nontrivial = vec![];
+        let mut evals = 0u64;
+        for dict in [false, true] {
+            if dict && a == 0 {
+                continue; // identical to the array pass
+            }
+            // the dict pass runs the block orders and the first round-robin only on the planes
+            // around the limits and on a coarse grid elsewhere (values are twice as expensive)
+            if dict && !thorough && !(a % 4 == 0 || (30..=34).contains(&a)) {
+                continue;
+            }
+            seen.clear();
+            for (oname, seq) in orders(thorough, a, s, v) {
+                if !seen.insert(seq.clone()) {
+                    continue; // degenerate order (some count is 0)
+                }
+                n_seq.fetch_add(1, std::sync::atomic::Ordering::Relaxed);
+                for fmt in &fmts {
+                    for op in [Op::Encode, Op::Decode] {
+                        let (seq_run, obs) = run(&seq, dict, *fmt, op, &fds);
+                        let cls = judge(&report, oname, &seq_run, dict, *fmt, op, &obs);
+                        evals += 1;
+                        if near_limit(&seq_run) {
+                            nontrivial.push(hash64(&(seq_string(&seq_run), dict, fmt.name(), op == Op::Encode)));
+                        }
+                        let key = format!(
+                            "{}{}/{}/{}",
+                            fmt.name(),
+                            if dict { "+dict" } else { "" },
+                            if op == Op::Encode { "encode" } else { "decode" },
+                            cls
+                        );
+                        *classes.entry(key).or_insert(0) += 1;
+                        if (a, s, v) == (32, 32, 0) || (a, s, v) == (33, 0, 0) || (a, s, v) == (20, 20, 25) {
+                            report.sample(json!({"triple": [a, s, v], "order": oname, "dict": dict, "format": fmt.name(),
+                                "op": if op == Op::Encode { "encode" } else { "decode" },
+                                "expected": format!("{:?}", expect(&seq_run, dict)), "observed": obs.class()}));
+                        }
+                    }
+                }
+            }
+        }
+        report.eval(evals);
+        report.nontrivial_many(nontrivial);
+        for (k, n) in classes {
+            report.outcome_n(&k, n);
+        }
+    });
+    report.set("grid", json!(format!("0..={b} cubed")));
+    report.set("distinct_sequences", json!(n_seq.load(std::sync::atomic::Ordering::Relaxed)));
+    report.assume("reference encodings for the decode half come from refdbus / refgv (audited in C01/C05); the value chain uses one-element containers so every level is actually traversed");
+    report.assume("for dicts the statement does not say whether a dict entry counts as a structure; cases on which the two readings differ are counted as unjudged");
+    if !thorough {
+        report.cap("quick tier: 4 of the 8 nesting orders; dict pass on the planes a ≡ 0 (mod 4) and a ∈ 30..=34 only");
+    }
+    report.finish(
+        "all (arrays, structs, variants) triples × nesting orders × formats × {encode, decode}; non-trivial = a count within 2 of a limit (30..34 arrays or structs, 62..66 total)",
+        true,
+    )
 }
